@@ -199,7 +199,8 @@ def cases(ctx):
             yield dict(op="nuc_v " + m, real=(A + "nuc_v", [m]), expect=e, tag="nucv")
             yield dict(op="nac_v " + m, real=(A + "nac_v", [m]), expect=e, tag="nacv")
     # --- position-message quality: TC 5..22 x supplements x version
-    for tc in range(0, 32):
+    order = list(range(32)) + list(range(31, -1, -1)) + rng.sample(range(32), 32)
+    for tc in order:
         for _ in range(nrep):
             m = hex_of(spec.adsb_frame(rng, tc, []))
             inside = 5 <= tc <= 22
